@@ -235,16 +235,6 @@ func stream(s string) *os.File {
 	return os.Stdout
 }
 
-// FramePayload: [tag 'O'|'E'][seq u32 LE][len u32 LE][payload]; payload is
-// vp.Payload("<seed>/<tag>/<seq>", len) so the receiver can regenerate it.
-func frameBytes(seed int64, tag byte, seq uint32, n int) []byte {
-	out := make([]byte, 9, 9+n)
-	out[0] = tag
-	out[1], out[2], out[3], out[4] = byte(seq), byte(seq>>8), byte(seq>>16), byte(seq>>24)
-	out[5], out[6], out[7], out[8] = byte(n), byte(n>>8), byte(n>>16), byte(n>>24)
-	return append(out, vp.Payload(fmt.Sprintf("%d/%c/%d", seed, tag, seq), n)...)
-}
-
 var (
 	seqMu sync.Mutex
 	seqs  = map[byte]uint32{}
@@ -274,7 +264,7 @@ func doWrites(p *WritePlan) map[string]any {
 				seq := seqs[tag]
 				seqs[tag]++
 				seqMu.Unlock()
-				b := frameBytes(p.Seed, tag, seq, f.Len)
+				b := spec.FrameBytes(p.Seed, tag, seq, f.Len)
 				n, _ := stream(s).Write(b)
 				seqMu.Lock()
 				wrote[tag] += int64(n)
